@@ -1132,7 +1132,7 @@ pub fn main(tier: Tier, seed: u64) -> Report {
     if !regress.is_empty() {
         runner::run_cases(&mut rep, "regress-ops", regress, run);
     }
-    runner::run_generated(&mut rep, "ops", tier.pick(30_000, 1_000_000), || strategy(tier), run);
+    runner::run_generated(&mut rep, "ops", tier.pick(60_000, 1_000_000), || strategy(tier), run);
     rep
 }
 
